@@ -259,3 +259,5 @@ package protocol
 //@   inline
 //@   requires len(groups) <= 65535 && allwf(groups)
 //@   ensures r != nil && wf(r)
+
+//@ property C09 min-obligations 100
